@@ -73,6 +73,42 @@ func c09FreshDecode(c *Ctx) {
 			if id, ok := unparen(u.X).(*ast.Ident); ok {
 				obj = info.ObjectOf(id)
 			}
+		} else if id, isId := unparen(call.Args[0]).(*ast.Ident); isId {
+			// a pointer local: fresh if every definition of it is a new allocation (&T{} / new(T))
+			po := info.ObjectOf(id)
+			allNew, ndef := true, 0
+			ast.Inspect(ld.Body(), func(m ast.Node) bool {
+				as, isAs := m.(*ast.AssignStmt)
+				if !isAs || len(as.Lhs) != len(as.Rhs) {
+					return true
+				}
+				for i, l := range as.Lhs {
+					if lid, isL := l.(*ast.Ident); isL && info.ObjectOf(lid) == po {
+						ndef++
+						r := unparen(as.Rhs[i])
+						isNew := false
+						if ue, isU := r.(*ast.UnaryExpr); isU && ue.Op == token.AND {
+							if cl, isCL := unparen(ue.X).(*ast.CompositeLit); isCL && len(cl.Elts) == 0 {
+								isNew = true
+							}
+						}
+						if ce, isC := r.(*ast.CallExpr); isC {
+							if fid, isF := ce.Fun.(*ast.Ident); isF && fid.Name == "new" {
+								if _, isB := info.Uses[fid].(*types.Builtin); isB {
+									isNew = true
+								}
+							}
+						}
+						if !isNew {
+							allNew = false
+						}
+					}
+				}
+				return true
+			})
+			if allNew && ndef > 0 {
+				obj = po
+			}
 		}
 		// the innermost loop around the call
 		var loop ast.Node
@@ -540,6 +576,28 @@ func c09JWT(c *Ctx) {
 				}
 			case *ast.Ident:
 				fobj, _ = info.Uses[x].(*types.Func)
+				// a local bound once to a literal (keyfunc := func(t) ... { ... })
+				if v, isV := info.Uses[x].(*types.Var); isV && !v.IsField() && keySrc == nil {
+					var lits []*ast.FuncLit
+					ndef := 0
+					ast.Inspect(pj.Body(), func(m ast.Node) bool {
+						if as, isAs := m.(*ast.AssignStmt); isAs && len(as.Lhs) == len(as.Rhs) {
+							for i, l := range as.Lhs {
+								if lid, isL := l.(*ast.Ident); isL && info.ObjectOf(lid) == types.Object(v) {
+									ndef++
+									if fl, isF := unparen(as.Rhs[i]).(*ast.FuncLit); isF {
+										lits = append(lits, fl)
+									}
+								}
+							}
+						}
+						return true
+					})
+					if ndef == 1 && len(lits) == 1 {
+						keyFunc = lits[0]
+						keySrc = p.SrcOfLit(lits[0])
+					}
+				}
 			}
 			if fobj != nil && keySrc == nil {
 				if src := p.SrcOfFunc(fobj); src != nil && src.Decl != nil {
